@@ -233,33 +233,36 @@ func (w *World) symLoad(fr *frame, pos token.Pos, T types.Type, p *symptr) value
 	n := len(p.cells)
 	if mergeable(T) {
 		// balanced ite tree over the index bits would be smaller; a chain is fine for n<=256
-		res := load(T, resolvePath(p.cells[n-1], p.path))
-		for i := n - 2; i >= 0; i-- {
-			v := load(T, resolvePath(p.cells[i], p.path))
-			res = w.iteVal(T, w.idxGuard(p, i), v, res)
+		// balanced decision tree on the index (runs of equal values collapse), not a 256-deep ite chain
+		vals := make([]value, n)
+		for i := 0; i < n; i++ {
+			vals[i] = load(T, resolvePath(p.cells[i], p.path))
 		}
-		return res
+		return w.muxTree(T, p.idx, vals, 0, n)
 	}
 	// group candidates by identical contents, fork over the groups
 	type group struct {
 		v     value
+		idxs  []int
 		guard *Term
 	}
 	var groups []group
 	for i := 0; i < n; i++ {
 		v := load(T, resolvePath(p.cells[i], p.path))
-		g := w.idxGuard(p, i)
 		found := false
 		for k := range groups {
 			if sameVal(groups[k].v, v) {
-				groups[k].guard = w.tt.BOr(groups[k].guard, g)
+				groups[k].idxs = append(groups[k].idxs, i)
 				found = true
 				break
 			}
 		}
 		if !found {
-			groups = append(groups, group{v, g})
+			groups = append(groups, group{v: v, idxs: []int{i}})
 		}
+	}
+	for k := range groups {
+		groups[k].guard = w.rangesGuard(p.idx, groups[k].idxs)
 	}
 	for k := 0; k < len(groups)-1; k++ {
 		if w.branch(groups[k].guard) {
@@ -267,6 +270,54 @@ func (w *World) symLoad(fr *frame, pos token.Pos, T types.Type, p *symptr) value
 		}
 	}
 	return groups[len(groups)-1].v
+}
+
+// rangesGuard builds idx ∈ idxs (ascending) as a disjunction of interval tests.
+func (w *World) rangesGuard(idx *Term, idxs []int) *Term {
+	tt := w.tt
+	g := tt.False
+	for i := 0; i < len(idxs); {
+		j := i
+		for j+1 < len(idxs) && idxs[j+1] == idxs[j]+1 {
+			j++
+		}
+		lo, hi := tt.Const(uint64(idxs[i]), idx.W), tt.Const(uint64(idxs[j]), idx.W)
+		var r *Term
+		if i == j {
+			r = tt.Cmp(OpEq, idx, lo)
+		} else {
+			r = tt.BAnd(tt.Cmp(OpUle, lo, idx), tt.Cmp(OpUle, idx, hi))
+		}
+		g = tt.BOr(g, r)
+		i = j + 1
+	}
+	return g
+}
+
+// muxTree selects vals[idx] for idx in [lo,hi) with a balanced tree of comparisons.
+func (w *World) muxTree(T types.Type, idx *Term, vals []value, lo, hi int) value {
+	if hi-lo == 1 {
+		return vals[lo]
+	}
+	same := true
+	for i := lo + 1; i < hi; i++ {
+		if !sameVal(vals[lo], vals[i]) {
+			same = false
+			break
+		}
+	}
+	if same {
+		if _, isAgg := vals[lo].(structure); !isAgg {
+			if _, isArr := vals[lo].(array); !isArr {
+				return vals[lo]
+			}
+		}
+	}
+	mid := (lo + hi) / 2
+	l := w.muxTree(T, idx, vals, lo, mid)
+	r := w.muxTree(T, idx, vals, mid, hi)
+	c := w.tt.Cmp(OpUlt, idx, w.tt.Const(uint64(mid), idx.W))
+	return w.iteVal(T, c, l, r)
 }
 
 func (w *World) symStore(fr *frame, pos token.Pos, T types.Type, p *symptr, v value) {
@@ -312,7 +363,15 @@ func (w *World) checkIndex(fr *frame, pos token.Pos, idx value, T types.Type, n 
 		return int(i), nil
 	case *Term:
 		// unsigned compare covers negatives for signed types too
-		inr := w.tt.Cmp(OpUlt, iv, w.tt.Const(uint64(n), wd))
+		wide := iv
+		if wd < 64 {
+			if signed {
+				wide = w.tt.SExt(iv, 64)
+			} else {
+				wide = w.tt.ZExt(iv, 64)
+			}
+		}
+		inr := w.tt.Cmp(OpUlt, wide, w.tt.Const(uint64(n), 64))
 		if n == 0 || !w.branch(inr) {
 			w.rtPanic(fr, pos, fmt.Sprintf("index out of range [sym] with length %d", n))
 		}
